@@ -158,7 +158,7 @@ func (p *sparser) adjacent(i int) bool {
 
 // <==> : LSS EQL GTR  ("<" "==" ">") ; ==> : EQL GTR
 func (p *sparser) isIff() bool {
-	return p.p+2 < len(p.toks) && p.toks[p.p].tok == token.LSS && p.toks[p.p+1].tok == token.EQL && p.toks[p.p+2].tok == token.GTR && p.adjacent(p.p) && p.adjacent(p.p+1)
+	return p.p+2 < len(p.toks) && p.toks[p.p].tok == token.LEQ && p.toks[p.p+1].tok == token.ASSIGN && p.toks[p.p+2].tok == token.GTR && p.adjacent(p.p) && p.adjacent(p.p+1)
 }
 func (p *sparser) isImpl() bool {
 	return p.p+1 < len(p.toks) && p.toks[p.p].tok == token.EQL && p.toks[p.p+1].tok == token.GTR && p.adjacent(p.p)
